@@ -91,8 +91,10 @@ def write_replay(prop, ob, payload):
     return p
 
 
-def triage(eng, ob, tier, seed, expected):
-    """violation candidate -> replay natively.  Returns final status."""
+def triage(eng, ob, tier, seed, expected, search=True):
+    """violation candidate -> replay natively.  Returns final status.
+    search=False: only the solver's model is replayed (used once several
+    violations of the run are already confirmed: the verdict is settled)"""
     c = ob.contract
     specs = ob.specs
     clause = ob.clause
@@ -122,6 +124,11 @@ def triage(eng, ob, tier, seed, expected):
                     return
         except Exception as e:
             payload['native_error'] = str(e)
+    if not search:
+        ob.status = 'bounded'
+        ob.detail = ('refuted by the solver; its model did not reproduce natively and the '
+                     'domain search was skipped (other violations of this run are already confirmed)')
+        return
     # model did not reproduce: search the domain natively, first in a
     # neighbourhood of the solver's model (a model on the boundary of the
     # failing region can flip under floating-point rounding), then at random
@@ -323,11 +330,14 @@ def run_items(prop, tier, seed, items, expected, verbose=False,
             'found_by': 'run-time contract check on cross-check samples'})
         ob.contract = None
     # triage of refuted obligations
+    confirmed = 0
     for ob in eng.obligations:
         if ob.status == 'violation' and getattr(ob, 'contract', None) \
                 is not None and ob.replay is None:
             try:
-                triage(eng, ob, tier, seed, expected)
+                triage(eng, ob, tier, seed, expected, search=confirmed < 3)
+                if ob.status == 'violation':
+                    confirmed += 1
             except Exception as e:
                 eng.errors.append('triage %s: %s' % (ob.name, e))
                 ob.status = 'undecided'
